@@ -173,9 +173,12 @@ func history(h *apph.H, r *emit.Rand, richness int) (log []string, err error) {
 		block()
 	}
 
-	// ---- degenerate-but-valid records through the message handlers (logged when rejected)
+	// ---- degenerate-but-valid records through the message handlers (logged when rejected),
+	// and the message history that leaves signed values in the store
 	if richness >= 2 || r.Chance(1, 2) {
 		degenerateMsgs(h, note)
+		block()
+		crossedTickScenario(h, r, note)
 		block()
 	}
 
